@@ -10,7 +10,8 @@
 // final item; `phase2_sync`: the same with synchronous callers in flight across dispatch_main() (oracle only);
 // `resubmit`: work items dispatch_async_f more items onto the main queue from inside their callout on the bound thread
 // (chains: also the LAST item of a drain pass does so, onto the then empty list), per-producer order with the bound
-// thread as one more producer.
+// thread as one more producer; in scenario `phase2` items resubmit as well, before and after dispatch_main() (then from
+// the worker that runs them).
 // Recorded (DISPATCH_VERIF hook, harness/dv_record.h): every atomic operation on &_dispatch_main_q (obj 1) and on the
 // client threads' stacks (obj = gettid: thread event and do_next of the dispatch_sync_context_s living there), marks
 // CALL / RET / CALLOUT_BEGIN / CALLOUT_END, MARK 1 = eventfd read (a = counter), 2 = callback returned, 3 = about to call
@@ -81,7 +82,7 @@ static void item_fn(void *ctx) {
 		if (poll(&p, 1, 0) > 0) { eventfd_t v = 0; if (eventfd_read(evfd_handle, &v) == 0) { dv_user(DVU_MARK, 4, v, 0); atomic_fetch_add(&st_nested_reads, 1); } }
 		_dispatch_main_queue_callback_4CF(NULL);
 	}
-	if (it->resub > 0 && me == main_tid && !atomic_load(&phase2_started)) resubmit_from(it, me);
+	if (it->resub > 0 && (atomic_load(&phase2_started) || me == main_tid)) resubmit_from(it, me);
 	if ((it->serial & 15) == 0) { struct timespec ts = {0, 10000 + (long)(mixh((uint64_t)it->serial) % 40000)}; nanosleep(&ts, NULL); }
 	else if ((it->serial & 7) == 1) sched_yield();
 	atomic_fetch_sub(&inside, 1);
@@ -158,7 +159,7 @@ static void *client(void *arg) {
 		else { static const int ks[] = { K_SYNC, K_BSYNC, K_AAW, K_BAAW, K_SYNC, K_AAW }; kind = ks[(r >> 20) % 6]; }
 		item_t *it = mk_item(kind, t, me, viaq);
 		if (!strcmp(scn, "nested") && t->role == 1 && (r >> 28) % 6 == 0 && viaq == 0) it->nest = 1;
-		if (!strcmp(scn, "resubmit") && t->role == 1 && (r >> 28) % 3 == 0 && viaq == 0) it->resub = 1 + (int)((r >> 32) % 4);
+		if ((!strcmp(scn, "resubmit") || !strcmp(scn, "phase2")) && t->role == 1 && (r >> 28) % 3 == 0 && viaq == 0) it->resub = 1 + (int)((r >> 32) % 4);
 		if ((r >> 8) % 5 == 0) usleep((useconds_t)((r >> 16) % 120));
 		submit(it, q);
 		if (t->role == 1) { while (atomic_load(&n_sub_async) - atomic_load(&n_done_async) > 48 && !stop_all) usleep(50); }
@@ -190,8 +191,8 @@ static void *phase2_coordinator(void *a) {
 	(void)a;
 	for (int k = 0; k < nthreads; k++) pthread_join(th[k], NULL);
 	// everything submitted must run, now on worker threads; then the queue must come to rest
-	for (int i = 0; i < 200000 && atomic_load(&n_done) < atomic_load(&n_items); i++) usleep(100);
-	if (atomic_load(&n_done) != atomic_load(&n_items)) FAIL("%ld of %ld items never ran after dispatch_main()", atomic_load(&n_items) - atomic_load(&n_done), atomic_load(&n_items));
+	// (no wall-clock limit here: the progress-based watchdog reports work that never runs)
+	while (atomic_load(&n_done) < atomic_load(&n_items)) usleep(100);
 	for (int i = 0; i < 20000; i++) { uint64_t v = *(volatile uint64_t *)&mq->dq_state; if ((v & 0x3fffffffull) == 0 && !(v & 0x80000000ull)) break; usleep(100); }
 	usleep(20000);
 	finish(0);
